@@ -32,6 +32,7 @@ objects run, the adapters only build, feed and read them.
 import os
 import sys
 import copy
+import math
 import json
 import shutil
 import tempfile
@@ -139,28 +140,59 @@ class Adapter(object):
 class JsrunAdapter(Adapter):
     '''
     One slot entry is a jsrun resource set.  Whole GPUs: one rank per set.  A
-    fractional share makes `gcd(ranks, ceil(ranks * share))` sets of several
-    ranks which share the GPUs of their set (all of them marked BUSY).  The
-    projection gives every rank its core list, its part of the set's lfs / mem
-    and packs the ranks' shares onto the set's GPUs first-fit; GPUs of a set left
-    without a share are attached to its first rank (then C02.GpusPerRank fails:
-    the set holds more than was asked for).
+    non-integral gpus_per_rank makes `gcd(ranks, ceil(ranks * gpus_per_rank))` sets
+    of several ranks which share the GPUs of their set (all of them marked BUSY);
+    cores, lfs and mem of a set are those of its ranks together.
 
-    Not driven: a non-integral request above one GPU (1.5): jsrun rounds the set
-    up to whole GPUs, the shared shape rule follows Continuous ("cannot share
-    GPUs>1") - `adapt` rounds such requests up before they are submitted.
-    A set cannot span nodes, so for multi-rank requests with a fractional share
-    SchedOps!Fits (ranks placed one by one) does not describe what jsrun can
-    place: such traces are judged without the quiescence obligations and a
-    failure of such a request is the class' documented behaviour.
+    Shares below one GPU (0.25, 0.5) - judged rank by rank: the projection gives
+    every rank of a set its core list and packs the ranks' shares onto the set's
+    GPUs first-fit; GPUs of a set left without a share are attached to its first
+    rank (then C02.GpusPerRank fails: the set holds more than was asked for).  So
+    3 x 0.5 (one set, 3 ranks, 2 GPUs) must come back as 3 ranks.  A set cannot
+    span nodes, so SchedOps!Fits (ranks placed one by one) does not describe what
+    jsrun can place for such a request: traces with one are judged without the
+    quiescence obligations and a failure of it is the class' documented behaviour.
+
+    Non-integral requests above one GPU (1.5, 2.5, 1.25) - no rank by rank reading
+    exists (2 ranks x 1.5 = 3 GPUs: the middle one is shared), and the shared shape
+    rule follows Continuous ("cannot share GPUs>1").  They are driven as asked for
+    (ranks, gpus_per_rank = 1.5 in the task description) and judged set by set: the
+    monitor is given the request folded by jsrun's documented rule (as few equal
+    sets as divide ranks and ceil(ranks * gpus_per_rank) evenly): `k` "ranks" of
+    `n` x cores_per_rank cores, ceil(n x gpus_per_rank) whole GPUs, n x lfs / mem;
+    the projection turns every granted set into one such entry.  One GPU per rank
+    for a 1.5 GPU request then fails C02.Ranks / CoresPerRank / GpusPerRank, and
+    Fits over the folded request is exactly what jsrun can place (quiescence
+    obligations asked).  ranks_per_node is not combined with these requests.
+
+    lfs / mem: the ranks of a set hold what each of them asked for (set of n ranks:
+    n x mem_per_rank), whatever figure the set carries - the node map must be
+    debited with just that, else C01.MapNotMarked / OccMatchesHeld, and
+    C01.MemBound / LfsBound / MemOverdraw once a node is over-committed.  A set of
+    one rank is that rank: it holds the figure the placement names (C02.LfsMemPerRank
+    compares it with the request, as for Continuous).
     '''
     cls = ContinuousJsrun
 
+    @staticmethod
+    def _above(lay, sh):
+        return sh['gpr'] > lay.su and sh['gpr'] % lay.su != 0
+
+    @staticmethod
+    def _fold(lay, sh):
+        '''(sets, ranks per set, GPUs per set) of a non-integral request'''
+        gp = -((-sh['ranks'] * sh['gpr']) // lay.su)
+        k  = math.gcd(sh['ranks'], gp)
+        return k, sh['ranks'] // k, gp // k
+
     def adapt(self, lay, shapes, rng):
         t, m, x = Adapter.adapt(self, lay, shapes, rng)
-        for sh in list(t.values()) + list(m.values()):
-            if sh['gpr'] > lay.su and sh['gpr'] % lay.su:
-                sh['gpr'] = (sh['gpr'] // lay.su + 1) * lay.su
+        for u, sh in t.items():
+            if self._above(lay, sh) and sh['ranks'] > 0:
+                sh['rpn'] = 0
+                k, n, g = self._fold(lay, sh)
+                m[u].update(ranks=k, cpr=n * max(sh['cpr'], 1), gpr=g * lay.su,
+                            lfs=n * sh['lfs'], mem=n * sh['mem'], rpn=0)
         return t, m, x
 
     @staticmethod
@@ -175,7 +207,8 @@ class JsrunAdapter(Adapter):
 
     def proj_slots(self, rig, uid, slots):
         su  = rig.lay.su
-        gpr = rig.shapes[uid]['gpr'] if uid in rig.shapes else 0
+        req = rig.task_shapes.get(uid) or rig.shapes.get(uid) or R.shape()
+        gpr = req['gpr']
         out = []
         for rs in slots or []:
             cm = rs['cores']
@@ -185,7 +218,16 @@ class JsrunAdapter(Adapter):
             nr   = len(cm)
             gl   = list(rs['gpus'][0]) if rs['gpus'] else []
             left = {g: su for g in gl}
-            lfs, mem = int(rs['lfs'] or 0), int(rs['mem'] or 0)
+            if nr > 1:
+                # what the ranks of the set hold: each of them what it asked for
+                lfs, mem = [req['lfs']] * nr, [req['mem']] * nr
+            else:
+                lfs, mem = [int(rs['lfs'] or 0)], [int(rs['mem'] or 0)]
+            if self._above(rig.lay, req):
+                # judged set by set: one entry per granted set
+                out.append({'node': rs['node_index'], 'cores': [c for row in cm for c in row],
+                            'gpus': [[g, su] for g in gl], 'lfs': sum(lfs), 'mem': sum(mem)})
+                continue
             ranks = []
             for i in range(nr):
                 gp = []
@@ -208,10 +250,8 @@ class JsrunAdapter(Adapter):
                         if not need:              # the set holds enough, only not GPU-wise
                             rig.unpackable = True
                 ranks.append({'node': rs['node_index'], 'cores': list(cm[i]), 'gpus': gp,
-                              'lfs': lfs // nr, 'mem': mem // nr})
+                              'lfs': lfs[i], 'mem': mem[i]})
             if ranks:
-                ranks[0]['lfs'] += lfs % nr
-                ranks[0]['mem'] += mem % nr
                 for g in gl:
                     if left[g] == su:             # held by the set, asked for by no rank
                         ranks[0]['gpus'].append([g, su])
@@ -274,6 +314,7 @@ class ColoAdapter(Adapter):
         t, m, x = Adapter.adapt(self, lay, shapes, rng)
         for sh in list(t.values()) + list(m.values()):
             sh['colo'] = 'none'
+            sh['excl'] = False
         uids = sorted(t)
         rng.shuffle(uids)
         inbag = [u for u in uids if t[u]['ranks'] > 0][:2]
@@ -356,7 +397,7 @@ class HombreAdapter(Adapter):
         for d in (t, m):
             for u in uids:
                 d[u].update(ranks=ranks + 1 if u == odd else ranks, cpr=cpr, gpr=0, lfs=0,
-                            mem=0, rpn=0, colo='none', named_env=False)
+                            mem=0, rpn=0, colo='none', excl=False, named_env=False)
         return t, m, x
 
     def post_make(self, rig, c, who):
@@ -472,6 +513,12 @@ class VariantRig(R.SchedRig):
 
     def _task(self, uid, sh):
         t  = R.SchedRig._task(self, uid, sh)
+        if sh.get('excl') and sh['colo'] != 'none':
+            # exclusive colocate tag: {'colocate': X, 'exclusive': True}
+            tags = dict(t['description'].get('tags') or {})
+            tags.setdefault('colocate', sh['colo'])
+            tags['exclusive'] = True
+            t['description']['tags'] = tags
         ex = self.adapter.fields(self, uid, sh)
         for k, v in ex.items():
             if k == 'tags':
